@@ -200,12 +200,21 @@ func runCase(h *verifx.H, ci int, r *verifx.Rng, c06 bool, shared *data_model.Sa
 	var metrics []*metricDef
 	nNs := r.Range(1, 3)
 	nextMetric := int32(1)
+	// builtin namespaces and groups have NEGATIVE ids and their weights are configurable through the journal like any other:
+	// each builtin id is used at most once per bucket, always with a configured weight, next to positive-id siblings
+	builtinNsFree := true
+	builtinGroups := []int32{format.BuiltinGroupIDDefault, format.BuiltinGroupIDBuiltin, format.BuiltinGroupIDHost}
 	for n := 0; n < nNs; n++ {
 		nsID := int32(n * 10)
 		if n > 0 || r.Chance(1, 2) {
 			nsID = int32(n*10 + 7)
 		} // namespace 0 is possible for the first
-		if r.Chance(4, 5) {
+		if builtinNsFree && r.Chance(1, 4) {
+			builtinNsFree = false
+			nsID = format.BuiltinNamespaceIDDefault
+			mm.namespaces[nsID] = &format.NamespaceMeta{ID: nsID, EffectiveWeight: pickWeight(r) * int64(r.Range(1, 3))}
+			h.Stat("partitions.builtinNamespaceWithWeight", 1)
+		} else if r.Chance(4, 5) {
 			mm.namespaces[nsID] = &format.NamespaceMeta{ID: nsID, EffectiveWeight: pickWeight(r) * int64(r.Pick(20, 1))} // sometimes 0 -> clamped to 1
 		}
 		nGr := r.Range(1, 3)
@@ -214,7 +223,12 @@ func runCase(h *verifx.H, ci int, r *verifx.Rng, c06 bool, shared *data_model.Sa
 			if !(n == 0 && g == 0) || r.Chance(1, 2) {
 				grID = int32(100*n + g + 50)
 			} // group 0 possible
-			if r.Chance(4, 5) {
+			if len(builtinGroups) > 0 && r.Chance(1, 4) {
+				grID = builtinGroups[0]
+				builtinGroups = builtinGroups[1:]
+				mm.groups[grID] = &format.MetricsGroup{ID: grID, EffectiveWeight: pickWeight(r) * int64(r.Range(1, 3))}
+				h.Stat("partitions.builtinGroupWithWeight", 1)
+			} else if r.Chance(4, 5) {
 				mm.groups[grID] = &format.MetricsGroup{ID: grID, EffectiveWeight: pickWeight(r) * int64(r.Pick(20, 1))}
 			}
 			nM := r.Range(1, 4)
